@@ -31,7 +31,7 @@ ASSUMPTIONS = [
 def plan(tier):
     base = {"case_time_limit": 600,
             "required_classes": ["A:order", "A:exact", "B:solver-independence", "C:adaptive", "D:splitting",
-                                 "E:conservation", "F:bond-limit", "TD:time-dependent", "mpdm", "history", "shared-config",
+                                 "E:conservation", "F:bond-limit", "TD:time-dependent", "TD:adaptive", "mpdm", "history", "shared-config",
                                  "family:pc", "family:ps", "family:ps2", "family:vmf", "family:cmf"],
             "required_counters": {"oracle": 800, "ratios_measured": 100}}
     if tier == "quick":
@@ -66,6 +66,8 @@ def step_x(order):
 def oracle_A(ctx, sc, em, mps, psi):
     """Order (or exactness) of one step."""
     x = step_x(sc.order) * float(ctx.rng.uniform(0.6, 1.0))
+    if sc.family == "cmf" and sc.order == 2:
+        x *= 2.0      # the inner site solves of CMF use solve_ivp's default rtol 1e-3: an error floor of ~1e-5
     h = x / em.hnorm
     ctx.cls("family:" + sc.family)
     order = sc.order
@@ -95,7 +97,7 @@ def oracle_A(ctx, sc, em, mps, psi):
     ctx.count("oracle")
     ctx.check(e1 <= 10 * x ** (p + 1) + 1e-9, f"A|{sc.name}|error-above-order-bound", e=e1, x=x, p=p)
     # (one-site TDVP in a sector: the h^3 splitting error must dominate the local solver's own error)
-    if e2 > (1e-6 if sc.family == "ps" else 1e-8):
+    if e2 > {"ps": 1e-6, "cmf": 5e-5}.get(sc.family, 1e-8):
         ratio = e1 / e2
         ctx.count("ratios_measured")
         ctx.metric_max(f"min_ratio_deficit:{sc.family}", (2 ** (p + 1)) / ratio)
@@ -302,6 +304,72 @@ def oracle_TD(ctx, em, mps, psi):
             ctx.nontrivial(("TD", sc.name, ctx.descriptor_key))
 
 
+def oracle_TD_adaptive(ctx, em, mps, psi):
+    """Adaptive embedded-pair P&C with a time-dependent Hamiltonian callable and several internal sub-steps: the stage
+    times of every sub-step must be measured from the start of the evolve call (seeded change C09-tdrk-adaptive-t0)."""
+    from renormalizer.mps import Mpo
+    from renormalizer.model import Op
+    from renormalizer.utils import EvolveConfig, EvolveMethod
+    rng = ctx.rng
+    ctx.cls("TD:adaptive")
+    vterms = gen.hermitian_terms(rng, em.gm, 1, max_support=2, allow_complex=em.complex_h, charge_conserving=True)
+    if not vterms:
+        return
+    V = dense.op_dense(em.gm.basis, vterms)
+    nv = float(np.linalg.norm(V, 2))
+    if nv < 1e-8 or not np.allclose(V, V.conj().T):
+        return
+    vterms = [Op(t.symbol, t.dofs, t.factor / nv, t.qn_list) for t in vterms]
+    V = V / nv
+    w = float(rng.uniform(1.0, 3.0))
+
+    def f(t):
+        return np.cos(w * t) + 0.3 * t
+
+    cache = {}
+
+    def mpo_t(t, *a, **k):
+        key = round(float(t), 14)
+        if key not in cache:
+            try:
+                cache[key] = Mpo(em.model, list(em.terms) + [Op(tt.symbol, tt.dofs, tt.factor * f(t), tt.qn_list) for tt in vterms])
+            except Exception as e:  # noqa: BLE001 - building H(t) is the harness's business
+                ctx.refuse("H(t) could not be built: " + type(e).__name__)
+                from rv.case import CaseAbort
+                raise CaseAbort()
+        return cache[key]
+
+    solver = str(rng.choice(["RKF45", "Cash-Karp45"]))
+    rtol = float(rng.choice([1e-4, 1e-5]))
+    t = float(rng.uniform(0.8, 2.0)) / (em.hnorm + 1.3)
+    nsub = int(rng.choice([3, 5, 8]))
+    m = mps.copy()
+    m.evolve_config = EvolveConfig(EvolveMethod.prop_and_compress_tdrk, rk_solver=solver, adaptive=True, guess_dt=t / nsub,
+                                   adaptive_rtol=rtol)
+    out = evolve.guarded_evolve(ctx, m, mpo_t, t, False, f"evolve|adaptive|pc-tdrk-{solver}|H(t)", "pc")
+    ref = dense.propagate_td(lambda s_: em.H + f(s_) * V, psi, t)
+    e = err(out, ref)
+    bound = 100 * rtol * max(1.0, t * (em.hnorm + 1.3))
+    ctx.count("oracle")
+    ctx.metric_max("adaptive_td_err_over_tol", e / bound)
+    ctx.check(e <= bound, f"TD|adaptive|pc-tdrk-{solver}|error-above-requested-tolerance-for-H(t)", err=e, rtol=rtol, substeps=nsub)
+    # splitting the same interval into separate calls must give the same answer within the same tolerance
+    cur = mps
+    t0 = 0.0
+    for k in range(2):
+        cur = cur.copy()
+        cur.evolve_config = EvolveConfig(EvolveMethod.prop_and_compress_tdrk, rk_solver=solver, adaptive=True,
+                                         guess_dt=t / nsub, adaptive_rtol=rtol)
+        start = t0
+        cur = evolve.guarded_evolve(ctx, cur, (lambda s_, *a, _st=start, **kw: mpo_t(_st + s_)), t / 2, False,
+                                    f"evolve|adaptive|pc-tdrk-{solver}|H(t)|split", "pc")
+        t0 += t / 2
+    d = float(np.linalg.norm(states.dense_of(cur) - states.dense_of(out)))
+    ctx.count("oracle")
+    ctx.check(d <= 2 * bound, f"TD|adaptive|pc-tdrk-{solver}|one-call-vs-two-calls-differ", distance=d, bound=bound)
+    ctx.nontrivial(("TDA", solver, ctx.descriptor_key, nsub))
+
+
 def oracle_mpdm(ctx, em, mps, psi):
     """Density-operator form: exp(-iHt) M."""
     from renormalizer.mps import MpDm
@@ -427,6 +495,7 @@ def run_case(ctx):
         oracle_C(ctx, em, low, psi_low, False)
     elif kind == 5:
         oracle_TD(ctx, em, full, psi)
+        oracle_TD_adaptive(ctx, em, full, psi)
     elif kind == 6:
         oracle_mpdm(ctx, em, full if em.gm.dim <= 40 else low, psi if em.gm.dim <= 40 else psi_low)
         oracle_history(ctx, em, full, psi)
